@@ -16,8 +16,19 @@ var props = map[string]propCfg{
 		Stub:      []string{"map and reduce functions are harness functions with their own park points"},
 		Assume:    []string{"interleavings are explored at the granularity of the H1 yield points plus the park points inside the harness map/reduce functions; races between statements without a yield between them are only visible to the race detector (thorough tier)"},
 	},
+	"C11": {
+		Level:     "exploration",
+		Technique: "deterministic simulation: real MultiOpQueryer on a simulated transport, seeded completion orders of the concurrent chunk calls and of the nested AsyncMapReduce yields, fault injection per chunk call, oracle = sequential specification (N results in request order, each request in exactly one call, <= m per call, error and no partial result on failure)",
+		Rule:      "a case = (N, m, file inputs, fault plan, schedule); non-trivial when N>m (the chunk path ran); distinct by hash of (N, m, files, fault plan, schedule trace); coverage_points_distinct = number of distinct (N,m) pairs reached",
+		Quick:     tierCfg{Runs: 12000, Budget: 45 * time.Second, Chunk: 500},
+		Thorough:  tierCfg{Runs: 600000, Budget: 10 * time.Minute, Chunk: 2000},
+		Real:      []string{"queryer.MultiOpQueryer.Query/queryBatch/fetch/fetchFile", "common.AsyncMapReduce", "net/http.Client on the simulated RoundTripper", "mime/multipart encoding"},
+		Stub:      []string{"the downstream service is an echo server", "TCP"},
+		Assume:    []string{"(N,m) pairs are drawn from the tape, not enumerated in order; the evidence reports how many distinct pairs were reached", "a service answer of the wrong length is not counted as a failing call here (that is C09's fault list)"},
+	},
 }
 
 var expectedProbes = map[string][]string{
+	"C11": {"qry.chunked", "qry.boundary-N=k*m", "qry.boundary-N=k*m+1", "qry.boundary-N=k*m-1", "qry.answers-overtook", "qry.failed-call", "qry.files"},
 	"C20": {"amr.errors-and-results", "amr.all-errors", "amr.nested", "amr.empty"},
 }
